@@ -191,6 +191,52 @@ def w_scan(arg):
     return res
 
 
+@H.guarded
+def w_long(arg):
+    """one long-lived Repository object (one cipher instance, as in a single CLI run over a big tree): several snapshots with
+    hundreds of chunks each, so that one process performs far more encryptions than any small case — nonce freshness per key
+    must hold for ALL of them, not only for the first few hundred"""
+    seed, idx, tier = arg
+    from .. import common
+    common.use_rebuilt_chunker()
+    from replicat.utils import adapters
+    r = rng_for(seed, 'C05-long', idx)
+    cipher = CIPHERS[idx % len(CIPHERS)]
+    res = {'idx': idx, 'violations': [], 'dist': ['long:cipher:%s/%s' % ((cipher or {}).get('name'), (cipher or {}).get('key_bits'))]}
+    calls = []
+    orig = adapters.AEADCipherAdapterMixin.encrypt
+
+    def rec_encrypt(self, data, key):
+        out = orig(self, data, key)
+        calls.append((bytes(key), bytes(out[:self._nonce_bytes])))
+        return out
+    adapters.AEADCipherAdapterMixin.encrypt = rec_encrypt
+    try:
+        with R.Scratch('c05l_%d' % idx) as sc:
+            src = sc.dir('src')
+            be = R.MemBackend()
+            repo, key = R.init_repo(be, R.settings_for(True, cipher, None, {'name': 'gclmulchunker', 'min_length': 8, 'max_length': 16}), concurrent=r.choice([1, 3]))
+            sizes = [r.choice([253, 254, 255, 256, 257, 300, 511, 512, 700]) for _ in range(r.choice([2, 3, 4]))]
+            for k, nchunks in enumerate(sizes):
+                blk = r.randbytes(16)
+                # `periodic`: hundreds of identical chunks ⇒ hundreds of encryptions under ONE derived chunk key in one process
+                R.write_tree(src, {'big-%d.bin' % k: (r.randbytes(nchunks * 12), None), 'small-%d' % k: (r.randbytes(5), None),
+                                   'periodic-%d.bin' % k: (blk * (nchunks + 40), None)})
+                R.snapshot(repo, [src], note='n%d' % k)       # the SAME Repository object every time
+            seen = set()
+            for kn in calls:
+                if kn in seen:
+                    res['violations'].append(('c05:nonce-reuse', f'nonce {kn[1].hex()} used twice under one key after {len(calls)} encryptions in one process', {'encryptions': len(calls)}))
+                    break
+                seen.add(kn)
+            res['summary'] = {'long_lived': True, 'cipher': (cipher or {}).get('name'), 'key_bits': (cipher or {}).get('key_bits'), 'snapshots': len(sizes), 'encryptions': len(calls)}
+            res['nontrivial'] = len(calls) > 600
+            res['counts'] = {'long:encryptions': len(calls)}
+    finally:
+        adapters.AEADCipherAdapterMixin.encrypt = orig
+    return res
+
+
 def run(out, drv, info):
     quick = out.tier == 'quick'
     n_sym, n_scan = (300, 360) if quick else (1500, 1800)
@@ -206,7 +252,9 @@ def run(out, drv, info):
     with ctx.Pool(min(16, os.cpu_count() or 4)) as pool:
         a = pool.map_async(w_symbolic, [(out.seed, i, out.tier) for i in range(n_sym)], chunksize=2)
         b = pool.map_async(w_scan, [(out.seed, i, out.tier) for i in range(n_scan)], chunksize=2)
+        c = pool.map_async(w_long, [(out.seed, i, out.tier) for i in range(10 if quick else 60)], chunksize=1)
         sym, scans = a.get(), b.get()
+        scans = scans + c.get()
     for obs in sym:
         if obs.get('crashed'):
             out.case({'crashed': obs['idx']}, False)
@@ -258,7 +306,7 @@ def run(out, drv, info):
         for k, v in res.get('counts', {}).items():
             out.count(k, v)
         for sig, what, extra in res['violations']:
-            out.violation(sig, what, dict(extra, kind='scan', seed=out.seed, idx=res['idx'], tier=out.tier, summary=res['summary']))
+            out.violation(sig, what, dict(extra, kind='long' if res['summary'].get('long_lived') else 'scan', seed=out.seed, idx=res['idx'], tier=out.tier, summary=res['summary']))
 
 
 def _in_child(fn, arg):
@@ -278,8 +326,8 @@ def replay(path, drv):
         print('verdict', {k: (v[:5] if isinstance(v, list) else v) for k, v in verdict.items()})
         leak = obs['encrypted'] and (verdict.get('nonpublic') or verdict.get('unkeyed') or verdict.get('nonce_reuse'))
         return 1 if (bad or obs['problems'] or leak) else 0
-    if rp.get('kind') == 'scan':
-        res = _in_child(w_scan, (rp['seed'], rp['idx'], rp.get('tier', 'quick')))
+    if rp.get('kind') in ('scan', 'long'):
+        res = _in_child(w_long if rp['kind'] == 'long' else w_scan, (rp['seed'], rp['idx'], rp.get('tier', 'quick')))
         print('summary', res['summary'])
         for v in res['violations']:
             print('violation', v[0], v[1])
